@@ -57,6 +57,18 @@ def eval_case(case):
                 else:
                     realrun.git(pr.root, "commit", "-q", "--allow-empty", "-a", "-m", "c%d" % (i + 1))
             hist += statecheck.run_history(pr, rng, 1)
+        if case.get("foreign"):
+            # versions from another clone whose clock was elsewhere: timestamps may coincide ACROSS tasks
+            # (an old version of one task with the newest version of another)
+            T = 2_000_000_000  # above every real-time version id, so these are the newest ones
+            fr = statecheck.std_project(sc.sub("foreign"), name="f", rich_outputs=False)
+            fr.cond(["run", "//:e1"], timeout=60, clock=[T])            # foreign: e1 @ T
+            fr.cond(["run", "//a:e2"], timeout=60, clock=[T])           #          e2 @ T+1 (its newest)
+            fa = os.path.join(sc.root, "foreign.tar.gz")
+            fr.cond(["archive", "-o", fa], timeout=60)
+            pr.cond(["run", "//:e1", "--again"], timeout=60, clock=[T + 1])   # own: e1 @ T+1 (will be an OLD version of e1)
+            pr.cond(["run", "//:e1", "--again"], timeout=60, clock=[T + 5])   #      e1 @ T+5
+            pr.cond(["restore", fa], timeout=60)                          # now e1 {T, T+1, T+5}, e2 {T+1, ...}
         rows = pr.rows()
         if isinstance(rows, str) or not rows:
             out["inconclusive"].append({"why": "history recorded no version", "detail": str(rows)[:200]})
@@ -171,7 +183,7 @@ def main(tier, n=None):
     for i in range(total):
         cases.append({"seed": rng.randrange(1 << 30), "nruns": rng.randint(1, 4), "task": rng.choice([None, None, "//:g", "//:dd", "//a/b:e3", "//:k", "//c-d:e4", "//:d1", "//a:c1"]),
                       "latest": rng.random() < 0.4, "out": rng.choice(["file", "dir", "default"]), "into": rng.choice(["clean", "clone"]), "git": rng.random() < 0.4,
-                      "dangling": rng.random() < 0.25})
+                      "dangling": rng.random() < 0.25, "foreign": rng.random() < 0.35})
     cli.warm()
     res = common.parallel_map(eval_case, cases, timeout=900)
     rep.merge_pool(res, cases)
